@@ -7,7 +7,7 @@ import json, os, re
 HERE = os.path.dirname(os.path.dirname(os.path.abspath(__file__)))
 PROPS = os.path.join(HERE, "lean", "SPProofs", "Properties")
 DERIVE = [("SPProofs.Pipeline.DeriveSimple", "SPModel.Derive." + n, "full") for n in ("derivation_grid_seq", "grid_factor_function", "grid_factor_iff", "level_unique", "level_exists", "actual_mem", "mem_generate", "generate_ambiguous", "mem_product")]
-FILL = [("SPProofs.Misc.Fill", "SPModel.Fill." + n, "full") for n in ("windowKeyS_one", "windowKeyS_group", "fillEntry_not_applicable", "selectLevel_ok", "selectLevel_error", "fillEntry_matching")]
+FILL = [("SPProofs.Misc.Fill", "SPModel.Fill." + n, "full") for n in ("windowKeyS_one", "windowKeyS_group", "fillEntry_not_applicable", "selectLevel_ok", "selectLevel_error", "fillColumn_ok", "fillEntry_error", "fillEntry_matching")]
 EXTRA = {
     "C04": FILL, "C05": FILL, "C06": FILL, "C07": FILL,
     "C24": [("SPProofs.Misc.C24Laws", "SPModel.C24." + n, "full") for n in (
